@@ -13,6 +13,10 @@ P = {
          'Theorems for all p, k > 0 (W = k*p), all cost maps and every tie-break: columns and rows partition the world into equal duplicate-free parts, each row meets each column in exactly one rank, all inverse workers of a layer lie in one column, every rank has exactly one gradient source (in its row, in the layer column; itself when it is a gradient worker), broadcast flags; bounded theorem: for all W <= 4096 and k | W the IEEE-double computation on k/W yields k. Tie: one KAISAAssignment per local rank (all ranks for W <= 24/48), all public queries compared with the extracted kaisa_view of the implementation inverse assignment, which must be accepted by greedy_ok_b on the columns; equality of the inverse assignment and of the group-creation order across ranks; fraction handling of KAISAAssignment and KFACPreconditioner compared bit-exactly with the PrimFloat model evaluated inside Coq.',
          'Coq kernel incl. vm_compute; PrimFloat/PrimInt63 kernel primitives; extraction + driver; coqc evaluation of generated float cases; integer costs; fraction theorem bounded by W <= 4096 (named _partial).',
          'DESIGN.md §4 C06'),
+ 'C20': (True, 'Coq refinement proof (concrete insertion-ordered table vs abstract map name -> samples, for every history) + correspondence of kfac.tracing with the extracted model under a scripted integer clock',
+         'Theorems for every history: a traced call returns/raises exactly what the wrapped function does; a returning call appends exactly one sample under its name and touches no other, a raising call none; the recorded samples are those of the abstract specification (calls that returned since the last clear); get_trace reports sum or (sum, count) of the last min(max_history, length) samples for max_history None or >= 1 and exactly the recorded names; clear empties. Tie: random histories (1-4 traced functions, shared __name__, identity-checked return objects and exceptions, exact argument pass-through, all (average, max_history) queries, clears) compared exactly with the extracted model and with an independent recomputation; sync=True checked under simdist. max_history=0 is the known finding D11.',
+         'Coq kernel; extraction + driver; scripted clock injected by attribute assignment on kfac.tracing.time; simdist. Closed under the global context.',
+         'DESIGN.md §4 C20'),
  'C14': (True, 'Coq proof (induction over rows; any element type) + exhaustive-n correspondence of extracted model with get_triu/fill_triu + simdist guard runs',
          'Theorems for every n and element type: pack/unpack round trip, NoDup/completeness/length n(n+1)/2 of the index list, symmetry of any unpacked matrix, symmetric==dense communication for any elementwise combine, rejection of non-square shapes with no communication. Tie: extracted triu_idx / fill_index_matrix equal torch behaviour for every n<=128 (quick; 512 thorough), bit-exact round trips in 4 dtypes x 3 layouts, guard + element counts of the three communication functions under simdist.',
          'Coq kernel; extraction (ExtrOcamlBasic) + ocaml/driver.ml; simdist; torch.triu_indices/advanced indexing compared not verified. Closed under the global context.',
